@@ -1770,6 +1770,8 @@ pub struct GraphEngine {
     geo_indexes: RwLock<HashMap<String, geo::GeoIndex>>,
     /// Striped locks for concurrent index updates.
     index_locks: Vec<RwLock<()>>,
+    /// Striped locks serializing read-modify-write cycles on adjacency-list keys.
+    adjacency_locks: Vec<RwLock<()>>,
     /// Whether the label index has been initialized (for lazy auto-creation).
     label_index_initialized: AtomicBool,
     /// Whether the edge type index has been initialized (for lazy auto-creation).
@@ -1823,6 +1825,7 @@ impl GraphEngine {
             fulltext_indexes: RwLock::new(HashMap::new()),
             geo_indexes: RwLock::new(HashMap::new()),
             index_locks: create_index_locks(lock_count),
+            adjacency_locks: create_index_locks(lock_count),
             label_index_initialized: AtomicBool::new(false),
             edge_type_index_initialized: AtomicBool::new(false),
             constraints: RwLock::new(HashMap::new()),
@@ -1893,6 +1896,7 @@ impl GraphEngine {
             fulltext_indexes: RwLock::new(HashMap::new()),
             geo_indexes: RwLock::new(HashMap::new()),
             index_locks: create_index_locks(config.index_lock_count),
+            adjacency_locks: create_index_locks(config.index_lock_count.max(1)),
             label_index_initialized: AtomicBool::new(label_index_exists),
             edge_type_index_initialized: AtomicBool::new(edge_type_index_exists),
             constraints: RwLock::new(constraints),
@@ -1943,6 +1947,7 @@ impl GraphEngine {
             fulltext_indexes: RwLock::new(HashMap::new()),
             geo_indexes: RwLock::new(HashMap::new()),
             index_locks: create_index_locks(config.index_lock_count),
+            adjacency_locks: create_index_locks(config.index_lock_count.max(1)),
             label_index_initialized: AtomicBool::new(label_index_exists),
             edge_type_index_initialized: AtomicBool::new(edge_type_index_exists),
             constraints: RwLock::new(constraints),
@@ -2199,6 +2204,14 @@ impl GraphEngine {
     #[allow(clippy::cast_possible_truncation)]
     const fn lock_index(&self, id: u64) -> usize {
         (id as usize) % self.index_locks.len()
+    }
+
+    /// Get the striped lock guarding the adjacency list stored under `key`.
+    #[allow(clippy::cast_possible_truncation)]
+    fn adjacency_lock(&self, key: &str) -> &RwLock<()> {
+        let mut hasher = std::collections::hash_map::DefaultHasher::new();
+        key.hash(&mut hasher);
+        &self.adjacency_locks[(hasher.finish() as usize) % self.adjacency_locks.len()]
     }
 
     // ========== Index CRUD Methods ==========
@@ -3371,6 +3384,9 @@ impl GraphEngine {
     }
 
     fn add_edge_to_list(&self, key: String, edge_id: u64) -> Result<()> {
+        // The list is a stored value: hold the key's lock from the read to the
+        // write-back so concurrent updates of the same list are not lost.
+        let _guard = self.adjacency_lock(&key).write();
         let mut tensor = self.store.get(&key).unwrap_or_else(|_| TensorData::new());
         let mut edges = Self::extract_edge_ids(&tensor);
         if !edges.contains(&edge_id) {
@@ -6440,6 +6456,7 @@ impl GraphEngine {
     }
 
     fn remove_edge_from_list(&self, key: &str, edge_id: u64) -> Result<()> {
+        let _guard = self.adjacency_lock(key).write();
         if let Ok(mut tensor) = self.store.get(key) {
             // Remove from new Pointers format
             if let Some(TensorValue::Pointers(ptrs)) = tensor.get("_edges") {
